@@ -37,7 +37,7 @@ type frameObs struct {
 	caseID   string
 }
 
-var bodyKinds = []string{"zero", "canonical", "long-variable-parts", "absent", "member-type-of-another-key"}
+var bodyKinds = []string{"zero", "canonical", "long-variable-parts", "absent", "member-type-of-another-key", "over-long-and-pad-terminated-texts"}
 
 // frameWorkload drives every self-measuring frame type through key × body kind × history × stale
 // caller values and hands each observation to visit.
@@ -92,6 +92,10 @@ func frameWorkload(e *Env, needSum bool, reps int, visit func(o *frameObs)) {
 						body = g.Value(bt)
 					case 2:
 						g.O = &gen.Opts{Lens: []int{17, 255}, StrLens: []int{1000, 5000}}
+						body = g.Value(bt)
+					case 5:
+						// texts longer than their fields (cut on write), texts ending in pad bytes, all-pad texts
+						g.O = &gen.Opts{Arbitrary: true, NoNilBody: true}
 						body = g.Value(bt)
 					case 4:
 						// the frame measures what the body emits, whatever the discriminator says it should be
@@ -196,7 +200,7 @@ func frameCheck(e *Env, sum bool) {
 	}
 	isDrainingChild(e)
 	if !sum {
-		r.Rule("every self-measuring frame type (SseBinary, SzseBinary, RcBinary, RootPacket) × every registered message type of its table × body kind {zero, canonical, long variable-length parts, absent, member type of another key} × buffer history H1..H9 (empty, random content, earlier frames, partly consumed, drained and reused, garbage in spare capacity, exactly header-sized spare capacity so that the backing array is reallocated between the length placeholder and its patch, full array mostly consumed so that the buffer slides, capacity ending inside the last bytes of this encoding) × caller-supplied length/checksum {0, 4, 0xFFFFFFFF, random, already correct}; thorough adds frames > 8 MiB. distinct_nontrivial = distinct (type,key,body kind,history,stale) combinations whose body is non-empty")
+		r.Rule("every self-measuring frame type (SseBinary, SzseBinary, RcBinary, RootPacket) × every registered message type of its table × body kind {zero, canonical, long variable-length parts, absent, member type of another key, arbitrary texts (longer than their fields, pad-terminated, all-pad)} × buffer history H1..H9 (empty, random content, earlier frames, partly consumed, drained and reused, garbage in spare capacity, exactly header-sized spare capacity so that the backing array is reallocated between the length placeholder and its patch, full array mostly consumed so that the buffer slides, capacity ending inside the last bytes of this encoding) × caller-supplied length/checksum {0, 4, 0xFFFFFFFF, random, already correct}; thorough adds frames > 8 MiB. distinct_nontrivial = distinct (type,key,body kind,history,stale) combinations whose body is non-empty")
 		r.Explain("Oracle: the length token found in the appended bytes at the schema position (SSE @12, SZSE @4, risk @8: big-endian u32; sample root @2: little-endian u32) == number of appended bytes − header − trailer == the frame object's length field after Encode == length of the reference encoder's rendering of the body.")
 	} else {
 		r.Rule("every checksummed frame type (SseBinary, SzseBinary, RootPacket) × every registered message type × body kind × buffer history H1..H9 × stale caller-supplied values, as for C04; thorough adds frames > 8 MiB with many 0xFF bytes. distinct_nontrivial = distinct combinations whose prior buffer content was non-empty")
